@@ -813,6 +813,10 @@ def conc_race_gen(tier, seed):
     return [["gen", seed, 4000 if tier == "quick" else 150000, "race"]]
 
 
+def conc_corerace_gen(tier, seed):
+    return [["gen", seed, 3000 if tier == "quick" else 100000, "corerace"]]
+
+
 def conc_shape(case, out):
     heads = tuple(sorted(set(_re.findall(r"\((\w[\w-]*)", case))))
     order = case.rsplit("(", 1)[-1]
@@ -823,6 +827,7 @@ PROPS["C08"] = {
     "streams": [
         Stream("evict", "conc", "conc", conc_evict_gen, shape=conc_shape, shrink=sexp_shrinks),
         Stream("race", "conc", "conc", conc_race_gen, shape=conc_shape, shrink=sexp_shrinks, compare_model=False),
+        Stream("corerace", "conc", "conc", conc_corerace_gen, shape=conc_shape, shrink=sexp_shrinks, compare_model=False),
     ],
     "rule": "evict: a task awaiting join!(r0..rN) whose r0 is resolved is polled by thread 0 (`is_done()`) while threads 1..N resolve "
             "r1..rN; real threads are forced through an interleaving of the crux_verif schedule points (exactly one thread runs "
@@ -831,7 +836,12 @@ PROPS["C08"] = {
             "schedule, and an eviction is a lost response. race: generated DSL commands (distinct operations), a sequential prefix, "
             "then two threads concurrently performing is_done() / resolve / drop under a random schedule of 4-17 grants; the oracle "
             "accepts an outcome (result classes, multiset of effects and events, done flag, live tasks) iff it equals the outcome of one "
-            "of the two sequential orders computed by M.Hosts (linearizability). non-trivial: every case (each forces a real "
+            "of the two sequential orders computed by M.Hosts (linearizability). corerace: a generated app on a real Core; after a "
+            "sequential prefix, 2-3 threads concurrently call process_event / resolve / view under a random schedule of 6-35 grants over "
+            "the schedule points of both executors; accepted iff result classes, the union of the effects returned by all calls, the "
+            "effects left for a following probe, the multiset of applied events and the queue/occupancy counters equal those of SOME "
+            "sequential order of the calls (all permutations computed by M.Hosts); the harness app flags concurrent entry into update. "
+            "non-trivial: every case (each forces a real "
             "interleaving); distinct = distinct (constructs, schedule, result classes)",
     "level_text": "Proof (Props/C08.lean) on the LTS M.Conc (P-evict: eviction check of Command::run_task vs any number of concurrent "
                   "holders of the poll's waker, steps = code between schedule points, sequentially consistent memory): "
